@@ -3,6 +3,9 @@ package props
 import (
 	"bytes"
 	"fmt"
+	"os"
+	"path/filepath"
+	"strings"
 
 	"verif/drv"
 	"verif/kit"
@@ -12,10 +15,13 @@ import (
 
 // C01Case: one logical content under one option set and container; all writers and all
 // readers are exercised inside the case so that they can be compared with each other.
+// Lvl selects the reader matrix: 0 = core matrix, 1 = core + base, 2 = core + base + extended
+// matrix and the re-read under reader-only options (see c01Plan). All writers run at every level.
 type C01Case struct {
 	Roots string   `json:"roots"`
 	Seq   []string `json:"seq"`
 	Opts  drv.Opts `json:"opts"`
+	Lvl   int      `json:"lvl,omitempty"`
 }
 
 func sameRoots(a, b [][]byte) bool {
@@ -53,6 +59,61 @@ func rawV1Key(raw []byte) []byte {
 	return refcar.CIDv1(refcar.CodecRaw, ci.MhCode, ci.Digest)
 }
 
+// c01Plan is the reader matrix of one level.
+type c01Plan struct {
+	scan    []string // drv.ReadX kinds
+	payload []string // drv.ReadPayloadX kinds
+	ra      []string // drv.OpenRAC01 kinds
+}
+
+// Core matrix (every case): the original reader matrix.
+var c01Core = c01Plan{
+	scan: []string{
+		"br-bytes", "br-stream", "br-file", "root-reader", "root-reader-lenient", "root-load", "root-load-batch", "int-reader", "int-load",
+		"br-skip-bytes", "br-skip-stream",
+	},
+	payload: []string{"data-reader"},
+	ra:      []string{"ro-new", "ro-new-at", "ro-open", "st-open", "st-open-at"},
+}
+
+// Base matrix (cases with Lvl >= 1), in addition to the core matrix: short-read and
+// data-with-EOF sources, remaining capability combinations, state after the end.
+var c01Base = c01Plan{
+	scan: []string{
+		"int-load-batch", "br-onebyte", "br-half", "br-dataerr", "br-skip-onebyte", "br-skip-file", "br-alt-bytes",
+		"root-reader-onebyte", "root-reader-dataerr", "root-reader-pair", "int-reader-onebyte", "int-reader-half",
+	},
+	payload: []string{"data-reader-seek"},
+	ra:      []string{"ro-file", "st-file"},
+}
+
+// Extended matrix (cases with Lvl >= 2), in addition to the core and base matrices.
+var c01Ext = c01Plan{
+	scan: []string{
+		"br-pipe", "br-skip-pipe", "br-skip-half", "br-skip-dataerr", "br-alt-file", "br-alt-stream", "br-alt-onebyte",
+		"root-reader-half", "root-reader-lenient-onebyte", "root-reader-pair-onebyte", "root-load-onebyte", "root-load-batch-half", "root-load-dataerr",
+		"int-reader-dataerr", "int-load-onebyte", "int-load-batch-half",
+	},
+	payload: []string{"data-reader-at", "data-reader-file"},
+}
+
+// Re-read of the extended matrix under the reader-only options ZeroLengthSectionAsEOF and
+// WithTrustedCAR, which must not change what a valid archive reads as.
+var c01ReaderOpts = c01Plan{
+	scan:    []string{"br-bytes", "br-skip-stream", "br-alt-bytes", "br-onebyte", "int-reader"},
+	payload: []string{"data-reader"},
+	ra:      []string{"ro-new", "ro-file", "st-open", "st-open-at"},
+}
+
+func c01Legacy(rk string) bool {
+	return strings.HasPrefix(rk, "root-") || strings.HasPrefix(rk, "int-")
+}
+
+// c01Refuses: the legacy readers that document the refusal of an archive without roots.
+func c01Refuses(rk string) bool {
+	return c01Legacy(rk) && !strings.HasPrefix(rk, "root-reader-lenient") && !strings.HasPrefix(rk, "root-reader-pair")
+}
+
 func runC01(c any, x *kit.Ctx) {
 	cs := c.(C01Case)
 	roots, rootRaws, nilRoots := kit.Roots(cs.Roots)
@@ -69,11 +130,27 @@ func runC01(c any, x *kit.Ctx) {
 	}
 	stored := m.RefBlocks()
 	wantPayload := refcar.EncodeV1(rootRaws, nilRoots, stored)
+	wantV := 2
+	if cs.Opts.V1 {
+		wantV = 1
+	}
+
+	// root-module size functions agree with the bytes the root-module writer emits (LdWrite /
+	// LdSize symmetry, HeaderSize = length of the written header)
+	if hs, err := drv.RootHeaderSize(roots); err != nil || hs != uint64(len(refcar.EncodeHeader(rootRaws, nilRoots))) {
+		x.Fail("c01:root-header-size", "root HeaderSize = %d, %v; the header occupies %d bytes", hs, err, len(refcar.EncodeHeader(rootRaws, nilRoots)))
+	}
+	for _, s := range m.Stored {
+		if got, want := drv.RootLdSize(s.Raw, s.Data), uint64(len(refcar.EncodeSection(s.Ref()))); got != want {
+			x.Fail("c01:root-ldsize", "root LdSize(%s) = %d; the section occupies %d bytes", s.Name, got, want)
+		}
+	}
 
 	writers := []string{"bs", "bsmany", "st-rw", "st-w", "def-path"}
 	if cs.Opts.V1 {
 		writers = append(writers, "st-stream", "def-stream", "root")
 	}
+	writers = append(writers, drv.WriterKindsX...)
 	files := map[string][]byte{} // distinct outputs by content
 	var order []string
 	for _, w := range writers {
@@ -84,7 +161,26 @@ func runC01(c any, x *kit.Ctx) {
 		if (w == "def-path" || w == "def-stream") && len(in) == 0 {
 			continue
 		}
-		res, err := drv.Write(w, x.Dir, roots, in, cs.Opts)
+		var res *drv.WriteResult
+		var err error
+		extended := false
+		for _, k := range drv.WriterKindsX {
+			if k == w {
+				extended = true
+			}
+		}
+		if extended {
+			var rx *drv.WriteResultX
+			rx, err = drv.WriteX(w, x.Dir, roots, in, cs.Opts)
+			if rx != nil {
+				res = &rx.WriteResult
+				if len(rx.Readback) > 0 {
+					x.Fail("c01:readback:"+w, "writer %s: reads between puts: %v", w, rx.Readback)
+				}
+			}
+		} else {
+			res, err = drv.Write(w, x.Dir, roots, in, cs.Opts)
+		}
 		x.Eval(1)
 		x.Transition(len(in) + 2)
 		if err != nil {
@@ -111,12 +207,24 @@ func runC01(c any, x *kit.Ctx) {
 			x.Fail("c01:payload:"+w, "writer %s payload differs from reference encoding of the logical content: got %x want %x", w, clip(f.PayloadRaw), clip(wantPayload))
 			continue
 		}
-		wantV := 2
-		if cs.Opts.V1 {
-			wantV = 1
-		}
 		if f.Version != wantV {
 			x.Fail("c01:version:"+w, "writer %s produced version %d want %d", w, f.Version, wantV)
+		}
+		// the container options took effect (otherwise the padding / codec dimensions are vacuous)
+		if f.Version == 2 && wantV == 2 {
+			if want := uint64(refcar.PragmaSize+refcar.V2HeaderSize) + cs.Opts.DataPad; f.V2.DataOffset != want {
+				x.Fail("c01:layout:data-offset:"+w, "writer %s: data offset %d want %d (data padding %d)", w, f.V2.DataOffset, want, cs.Opts.DataPad)
+			}
+			if !f.HasIndex {
+				x.Fail("c01:layout:no-index:"+w, "writer %s: no index written", w)
+			} else {
+				if want := f.V2.DataOffset + f.V2.DataSize + cs.Opts.IndexPad; f.V2.IndexOffset != want {
+					x.Fail("c01:layout:index-offset:"+w, "writer %s: index offset %d want %d (index padding %d)", w, f.V2.IndexOffset, want, cs.Opts.IndexPad)
+				}
+				if cs.Opts.Codec != "" && f.IndexCodec != uint64(cs.Opts.CodecCode()) {
+					x.Fail("c01:layout:index-codec:"+w, "writer %s: index codec 0x%x want 0x%x", w, f.IndexCodec, uint64(cs.Opts.CodecCode()))
+				}
+			}
 		}
 		k := string(res.Bytes)
 		if _, ok := files[k]; !ok {
@@ -128,99 +236,26 @@ func runC01(c any, x *kit.Ctx) {
 		x.Fail("c01:writers-differ", "writers produced %d distinct files for the same content and options (first of each: %v)", len(files), order)
 	}
 	// (2) every reader returns the same roots and sequence
-	for _, file := range files {
-		for _, rk := range drv.ScanReaderKinds {
-			r := drv.Read(rk, x.Dir, file, cs.Opts)
-			x.Eval(1)
-			x.Transition(len(stored) + 1)
-			legacy := rk != "br-bytes" && rk != "br-stream" && rk != "br-file" && rk != "root-reader-lenient"
-			if legacy && len(rootRaws) == 0 {
-				// documented refusal: the legacy readers reject an empty root list
-				e := r.OpenErr
-				if e == nil {
-					e = r.Err
-				}
-				if !drv.IsEmptyRootsRefusal(e) {
-					x.Fail("c01:empty-roots-refusal:"+rk, "reader %s on an archive without roots: expected the documented refusal, got open=%v err=%v blocks=%d", rk, r.OpenErr, r.Err, len(r.Blocks))
-				}
-				continue
-			}
-			if r.OpenErr != nil || r.Err != nil {
-				x.Fail("c01:reader-error:"+rk, "reader %s fails on a valid archive: open=%v err=%v", rk, r.OpenErr, r.Err)
-				continue
-			}
-			if !sameRoots(r.Roots, rootRaws) {
-				x.Fail("c01:roots:"+rk, "reader %s roots %x want %x", rk, r.Roots, rootRaws)
-			}
-			if d := sameBlocks(r.Blocks, stored, true); d != "" {
-				x.Fail("c01:blocks:"+rk, "reader %s sequence differs: %s", rk, d)
-			}
+	path := filepath.Join(x.Dir, "c01-in.car")
+	defer os.Remove(path)
+	for _, file := range c01Ordered(files) {
+		if err := os.WriteFile(path, file, 0o644); err != nil {
+			panic(err)
 		}
-		// skipping block reader: same CID sequence
-		for _, rk := range []string{"br-skip-bytes", "br-skip-stream"} {
-			r := drv.Read(rk, x.Dir, file, cs.Opts)
-			x.Eval(1)
-			if r.OpenErr != nil || r.Err != nil {
-				x.Fail("c01:reader-error:"+rk, "reader %s fails on a valid archive: open=%v err=%v", rk, r.OpenErr, r.Err)
-				continue
-			}
-			if d := sameBlocks(r.Blocks, stored, false); d != "" {
-				x.Fail("c01:blocks:"+rk, "reader %s CID sequence differs: %s", rk, d)
-			}
+		// the CARv1 payload window per the reference decoder (not per go-car)
+		rf, err := refcar.DecodeFile(file, false)
+		if err != nil {
+			panic(err) // decoded above
 		}
-		// v2 reader payload
-		r := drv.Read("data-reader", x.Dir, file, cs.Opts)
-		x.Eval(1)
-		if r.OpenErr != nil || r.Err != nil {
-			x.Fail("c01:reader-error:data-reader", "Reader fails on a valid archive: open=%v err=%v", r.OpenErr, r.Err)
-		} else {
-			if !sameRoots(r.Roots, rootRaws) {
-				x.Fail("c01:roots:data-reader", "Reader.Roots %x want %x", r.Roots, rootRaws)
-			}
-			if !bytes.Equal(r.Payload, wantPayload) {
-				x.Fail("c01:payload:data-reader", "Reader.DataReader bytes differ from the payload: got %x want %x", clip(r.Payload), clip(wantPayload))
-			}
+		c01ReadAll(x, cs, "", c01Core, cs.Opts, path, file, rf.PayloadRaw, rootRaws, stored, m, wantPayload, wantV)
+		if cs.Lvl >= 1 {
+			c01ReadAll(x, cs, "", c01Base, cs.Opts, path, file, rf.PayloadRaw, rootRaws, stored, m, wantPayload, wantV)
 		}
-		// random-access readers
-		for _, rk := range drv.RAKinds {
-			ra, err := drv.OpenRA(rk, x.Dir, file, cs.Opts)
-			x.Eval(1)
-			if err != nil {
-				x.Fail("c01:reader-error:"+rk, "%s fails to open a valid archive: %v", rk, err)
-				continue
-			}
-			rs, err := ra.Roots()
-			if err != nil || !sameRoots(rs, rootRaws) {
-				x.Fail("c01:roots:"+rk, "%s roots %x (err %v) want %x", rk, rs, err, rootRaws)
-			}
-			keys, err := ra.Keys()
-			if err == nil {
-				var want [][]byte
-				for _, s := range stored {
-					if cs.Opts.Whole {
-						want = append(want, s.Cid)
-					} else {
-						want = append(want, rawV1Key(s.Cid))
-					}
-				}
-				if !sameRoots(keys, want) {
-					x.Fail("c01:listing:"+rk, "%s key listing %x want %x", rk, keys, want)
-				}
-			} else if err != drv.ErrNoListing {
-				x.Fail("c01:listing-error:"+rk, "%s AllKeysChan failed: %v", rk, err)
-			}
-			for _, s := range m.Stored {
-				x.Transition(1)
-				has, err := ra.Has(s.Cid)
-				if err != nil || !has {
-					x.Fail("c01:has:"+rk, "%s Has(%s)=%v,%v for a stored block", rk, s.Name, has, err)
-				}
-				data, err := ra.Get(s.Cid)
-				if err != nil || !bytes.Equal(data, s.Data) {
-					x.Fail("c01:get:"+rk, "%s Get(%s)=%x,%v want %x", rk, s.Name, clip(data), err, clip(s.Data))
-				}
-			}
-			ra.Close()
+		if cs.Lvl >= 2 {
+			c01ReadAll(x, cs, "", c01Ext, cs.Opts, path, file, rf.PayloadRaw, rootRaws, stored, m, wantPayload, wantV)
+			ro := cs.Opts
+			ro.ZeroEOF, ro.Trusted = true, true
+			c01ReadAll(x, cs, ":ropts", c01ReaderOpts, ro, path, file, rf.PayloadRaw, rootRaws, stored, m, wantPayload, wantV)
 		}
 	}
 	x.State(fmt.Sprintf("%s|%x", cs.Roots, wantPayload))
@@ -230,10 +265,197 @@ func runC01(c any, x *kit.Ctx) {
 	}
 }
 
+// c01Ordered returns the distinct outputs in a deterministic order.
+func c01Ordered(files map[string][]byte) [][]byte {
+	var keys []string
+	for k := range files {
+		keys = append(keys, k)
+	}
+	// few entries (normally one): insertion sort on the content
+	for i := 1; i < len(keys); i++ {
+		for j := i; j > 0 && keys[j] < keys[j-1]; j-- {
+			keys[j], keys[j-1] = keys[j-1], keys[j]
+		}
+	}
+	out := make([][]byte, len(keys))
+	for i, k := range keys {
+		out[i] = files[k]
+	}
+	return out
+}
+
+// c01ReadAll runs one reader matrix over one file. tag is appended to the reader kind in
+// signatures (it distinguishes the re-read under reader-only options).
+func c01ReadAll(x *kit.Ctx, cs C01Case, tag string, plan c01Plan, o drv.Opts, path string, file, payload []byte, rootRaws [][]byte, stored []refcar.Block, m *model.Map, wantPayload []byte, wantV int) {
+	for _, rk0 := range plan.scan {
+		rk := rk0 + tag
+		r := drv.ReadX(rk0, path, file, payload, o)
+		x.Eval(1)
+		x.Transition(len(stored) + 1)
+		if c01Refuses(rk0) && len(rootRaws) == 0 {
+			// documented refusal: the legacy readers reject an empty root list
+			e := r.OpenErr
+			if e == nil {
+				e = r.Err
+			}
+			if !drv.IsEmptyRootsRefusal(e) {
+				x.Fail("c01:empty-roots-refusal:"+rk, "reader %s on an archive without roots: expected the documented refusal, got open=%v err=%v blocks=%d", rk, r.OpenErr, r.Err, len(r.Blocks))
+			}
+			continue
+		}
+		if r.OpenErr != nil || r.Err != nil {
+			x.Fail("c01:reader-error:"+rk, "reader %s fails on a valid archive: open=%v err=%v (after %d blocks)", rk, r.OpenErr, r.Err, len(r.Blocks))
+			continue
+		}
+		if !sameRoots(r.Roots, rootRaws) {
+			x.Fail("c01:roots:"+rk, "reader %s roots %x want %x", rk, clipRoots(r.Roots), clipRoots(rootRaws))
+		}
+		if d := sameBlocks(r.Blocks, stored, false); d != "" {
+			x.Fail("c01:blocks:"+rk, "reader %s CID sequence differs: %s", rk, d)
+		} else {
+			for i := range r.Blocks {
+				if r.HasData != nil && r.HasData[i] && !bytes.Equal(r.Blocks[i].Data, stored[i].Data) {
+					x.Fail("c01:blocks:"+rk, "reader %s sequence differs: block %d data %x vs %x", rk, i, clip(r.Blocks[i].Data), clip(stored[i].Data))
+					break
+				}
+				if r.HasData == nil && !bytes.Equal(r.Blocks[i].Data, stored[i].Data) { // loaders
+					x.Fail("c01:blocks:"+rk, "reader %s sequence differs: block %d data %x vs %x", rk, i, clip(r.Blocks[i].Data), clip(stored[i].Data))
+					break
+				}
+				if r.Sizes != nil && r.Sizes[i] != uint64(len(stored[i].Data)) {
+					x.Fail("c01:size:"+rk, "reader %s block %d: size %d, the block has %d bytes", rk, i, r.Sizes[i], len(stored[i].Data))
+					break
+				}
+			}
+		}
+		if strings.HasPrefix(rk0, "br-") && r.Version != uint64(wantV) {
+			x.Fail("c01:br-version:"+rk, "reader %s: BlockReader.Version %d want %d", rk, r.Version, wantV)
+		}
+		for i, p := range r.PostEOF {
+			// BlockReader documents io.EOF for every call after the end; of the other
+			// readers only "no further block" is demanded
+			if (strings.HasPrefix(rk0, "br-") && p != "EOF") || strings.Contains(p, "block ") {
+				x.Fail("c01:after-eof:"+rk, "reader %s: call %d after the end returned %s", rk, i+1, p)
+				break
+			}
+		}
+		if r.Second != nil {
+			if d := sameBlocks(r.Second, stored, true); d != "" {
+				x.Fail("c01:blocks:"+rk, "reader %s: second reader (opened together with a third after the first was drained) differs: %s", rk, d)
+			}
+			if d := sameBlocks(r.Third, stored, true); d != "" {
+				x.Fail("c01:blocks:"+rk, "reader %s: third reader (advanced in lockstep with the second) differs: %s", rk, d)
+			}
+		}
+	}
+	// v2 reader payload
+	for _, rk0 := range plan.payload {
+		rk := rk0 + tag
+		r := drv.ReadPayloadX(rk0, path, file, o)
+		x.Eval(1)
+		if r.OpenErr != nil || r.Err != nil {
+			x.Fail("c01:reader-error:"+rk, "Reader (%s) fails on a valid archive: open=%v err=%v", rk, r.OpenErr, r.Err)
+			continue
+		}
+		if !sameRoots(r.Roots, rootRaws) {
+			x.Fail("c01:roots:"+rk, "Reader.Roots (%s) %x want %x", rk, clipRoots(r.Roots), clipRoots(rootRaws))
+		}
+		if !bytes.Equal(r.Payload, wantPayload) {
+			x.Fail("c01:payload:"+rk, "Reader.DataReader (%s) bytes differ from the payload: got %x want %x", rk, clip(r.Payload), clip(wantPayload))
+		}
+	}
+	// random-access readers
+	for _, rk0 := range plan.ra {
+		rk := rk0 + tag
+		ra, err := drv.OpenRAC01(rk0, x.Dir, path, file, o)
+		x.Eval(1)
+		if err != nil {
+			x.Fail("c01:reader-error:"+rk, "%s fails to open a valid archive: %v", rk, err)
+			continue
+		}
+		rs, err := ra.Roots()
+		if err != nil || !sameRoots(rs, rootRaws) {
+			x.Fail("c01:roots:"+rk, "%s roots %x (err %v) want %x", rk, clipRoots(rs), err, clipRoots(rootRaws))
+		}
+		keys, err := ra.Keys()
+		if err == nil {
+			var want [][]byte
+			for _, s := range stored {
+				if cs.Opts.Whole {
+					want = append(want, s.Cid)
+				} else {
+					want = append(want, rawV1Key(s.Cid))
+				}
+			}
+			if !sameRoots(keys, want) {
+				x.Fail("c01:listing:"+rk, "%s key listing %x want %x", rk, clipRoots(keys), clipRoots(want))
+			}
+		} else if err != drv.ErrNoListing {
+			x.Fail("c01:listing-error:"+rk, "%s AllKeysChan failed: %v", rk, err)
+		}
+		for _, s := range m.Stored {
+			x.Transition(1)
+			has, err := ra.Has(s.Cid)
+			if err != nil || !has {
+				x.Fail("c01:has:"+rk, "%s Has(%s)=%v,%v for a stored block", rk, s.Name, has, err)
+			}
+			data, err := ra.Get(s.Cid)
+			if err != nil || !bytes.Equal(data, s.Data) {
+				x.Fail("c01:get:"+rk, "%s Get(%s)=%x,%v want %x", rk, s.Name, clip(data), err, clip(s.Data))
+			}
+			n, err := ra.Size(s.Cid)
+			if err != nil || n != len(s.Data) {
+				x.Fail("c01:getsize:"+rk, "%s size of %s = %d,%v; the block has %d bytes", rk, s.Name, n, err, len(s.Data))
+			}
+		}
+		ra.Close()
+	}
+}
+
+func clipRoots(r [][]byte) [][]byte {
+	if len(r) > 4 {
+		return append(append([][]byte{}, r[:4]...), []byte(fmt.Sprintf("... %d more", len(r)-4)))
+	}
+	return r
+}
+
+type c01Cont struct {
+	v1     bool
+	dp, ip uint64
+	codec  string
+}
+
+type c01DD struct{ whole, dup, sid bool }
+
+func (ct c01Cont) opts(d c01DD) drv.Opts {
+	return drv.Opts{V1: ct.v1, DataPad: ct.dp, IndexPad: ct.ip, Codec: ct.codec, Whole: d.whole, AllowDup: d.dup, StoreID: d.sid}
+}
+
+// containers; the last one is CARv1 written with the padding and codec options set (the
+// options must be ignored by the writers; the readers build a digest-only index over it)
+var c01Conts = []c01Cont{{v1: true}, {}, {dp: 1, ip: 1, codec: "sorted"}, {dp: 1413, ip: 7}, {dp: 7, ip: 0, codec: "sorted"}, {v1: true, dp: 7, ip: 3, codec: "sorted"}}
+
+// all eight de-duplication / identity settings (the first six are the original ones)
+var c01DDs = []c01DD{{}, {sid: true}, {whole: true}, {dup: true, sid: true}, {whole: true, dup: true}, {whole: true, sid: true}, {dup: true}, {whole: true, dup: true, sid: true}}
+
+// reduced (container, de-dup) matrix for the root sets after the first two: the original
+// 2x2 block plus padding / codec / CARv1-with-options met by Whole, AllowDup, StoreID
+var c01Reduced = [][2]int{{0, 0}, {0, 1}, {1, 0}, {1, 1}, {3, 4}, {2, 6}, {5, 7}}
+
+func c01HasNew(sq []string) bool {
+	for _, n := range sq {
+		if n == "j" || n == "I200" {
+			return true
+		}
+	}
+	return false
+}
+
 func genC01(tier string, emit func(any)) {
+	thorough := tier == "thorough"
 	names := []string{"a", "b", "e", "a'", "a0", "i", "ia", "s", "t", "k"}
 	maxLen := 2
-	if tier == "thorough" {
+	if thorough {
 		names = append(names, "i0", "c")
 		maxLen = 3
 	}
@@ -242,33 +464,88 @@ func genC01(tier string, emit func(any)) {
 	for _, l := range []string{"L127", "L128", "L16383", "L16384"} {
 		seqs = append(seqs, []string{l}, []string{"e", l, "a"})
 	}
-	if tier == "thorough" {
+	if thorough {
 		seqs = append(seqs, []string{"L2097151"}, []string{"L2097152", "a"})
+	}
+	// sequences of length <= 2 that contain one of the additional CID shapes (two-byte codec
+	// varint, two-byte digest-length varint)
+	var newSeqs [][]string
+	kit.Seqs(append(append([]string{}, names...), "j", "I200"), 2, func(s []string) {
+		if c01HasNew(s) {
+			newSeqs = append(newSeqs, s)
+		}
+	})
+	lvl := func(ri int, sq []string) int {
+		boundary := false
+		for _, n := range sq {
+			if strings.HasPrefix(n, "L") {
+				boundary = true
+			}
+		}
+		if len(sq) <= 1 || boundary {
+			return 2
+		}
+		if !thorough {
+			// quick: extended matrix under the first root set, base matrix otherwise
+			if ri == 0 {
+				return 2
+			}
+			return 1
+		}
+		if len(sq) <= 2 {
+			return 2
+		}
+		// thorough, sequences of length 3: base matrix under the first root set, core matrix otherwise
+		if ri == 0 {
+			return 1
+		}
+		return 0
 	}
 	// one archive that exceeds every internal buffer and batch size (bufio 4 KiB, loader batches of 1000)
 	big := kit.ManyNames(1100)
 	for _, o := range []drv.Opts{{V1: true}, {}, {DataPad: 7, IndexPad: 3, Codec: "sorted", AllowDup: true}} {
-		emit(C01Case{Roots: "a", Seq: append([]string{"a"}, big...), Opts: o})
+		emit(C01Case{Roots: "a", Seq: append([]string{"a"}, big...), Opts: o, Lvl: 2})
 	}
-	type cont struct {
-		v1     bool
-		dp, ip uint64
-		codec  string
-	}
-	conts := []cont{{v1: true}, {}, {dp: 1, ip: 1, codec: "sorted"}, {dp: 1413, ip: 7}, {dp: 7, ip: 0, codec: "sorted"}}
-	type dd struct{ whole, dup, sid bool }
-	dds := []dd{{}, {sid: true}, {whole: true}, {dup: true, sid: true}, {whole: true, dup: true}, {whole: true, sid: true}}
-	for _, sq := range seqs {
-		for ri, rs := range kit.RootSetOrder {
-			for ci, ct := range conts {
-				for di, d := range dds {
-					// full product for the first two root sets; other root sets with the first
-					// two containers and de-dup settings only
-					if ri >= 2 && (ci >= 2 || di >= 2) {
-						continue
-					}
-					emit(C01Case{Roots: rs, Seq: sq, Opts: drv.Opts{V1: ct.v1, DataPad: ct.dp, IndexPad: ct.ip, Codec: ct.codec, Whole: d.whole, AllowDup: d.dup, StoreID: d.sid}})
+	// headers whose length crosses the varint widths, the CBOR array-head widths and a 4 KiB buffer
+	for _, rs := range kit.C01RootSetsLarge {
+		for _, sq := range [][]string{{}, {"a"}, {"a", "b"}, {"e", "L128", "a"}} {
+			for _, ct := range c01Conts {
+				for _, di := range []int{0, 7} {
+					emit(C01Case{Roots: rs, Seq: sq, Opts: ct.opts(c01DDs[di]), Lvl: 2})
 				}
+			}
+		}
+	}
+	rootSets := append(append([]string{}, kit.RootSetOrder...), kit.C01RootSetsSmall...)
+	for _, sq := range seqs {
+		for ri, rs := range rootSets {
+			if ri < 2 {
+				// full product for the first two root sets
+				for _, ct := range c01Conts {
+					for _, d := range c01DDs {
+						emit(C01Case{Roots: rs, Seq: sq, Opts: ct.opts(d), Lvl: lvl(ri, sq)})
+					}
+				}
+				continue
+			}
+			red := c01Reduced
+			if len(sq) >= 3 && ri >= len(kit.RootSetOrder) && lvl(ri, sq) == 0 {
+				red = c01Reduced[4:] // the additional root sets meet sequences of length 3 under the three new combinations only
+			}
+			for _, cd := range red {
+				emit(C01Case{Roots: rs, Seq: sq, Opts: c01Conts[cd[0]].opts(c01DDs[cd[1]]), Lvl: lvl(ri, sq)})
+			}
+		}
+	}
+	for _, sq := range newSeqs {
+		for _, ct := range c01Conts {
+			for _, d := range c01DDs {
+				emit(C01Case{Roots: "a", Seq: sq, Opts: ct.opts(d), Lvl: 2})
+			}
+		}
+		for _, rs := range []string{"j", "i", "empty"} {
+			for _, cd := range c01Reduced {
+				emit(C01Case{Roots: rs, Seq: sq, Opts: c01Conts[cd[0]].opts(c01DDs[cd[1]]), Lvl: lvl(1, sq)})
 			}
 		}
 	}
@@ -281,15 +558,51 @@ func init() {
 		Run:    runC01,
 		Decode: kit.DecodeAs[C01Case],
 		Rule: "every (root list, block sequence up to the bound, de-dup/identity options, container) is written by every applicable writer " +
-			"(blockstore Put and PutMany, storage ReadableWritable/Writable/stream, deferred path/stream, root-module header+LdWrite) and each distinct output is read by every reader " +
-			"(BlockReader over bytes/stream/file incl. SkipNext, Reader.DataReader, root CarReader/LoadCar, internal carv1 reader/loader, ReadOnly blockstore x3, OpenReadable x2); " +
+			"(blockstore Put, one PutMany, two PutMany halves, Put+PutMany+Put, Put with Has/Get/GetSize of the blocks put so far after every Put; storage ReadableWritable (plain and with Has/Get after every Put), " +
+			"Writable on a file (plain and with the caller's data buffer overwritten after every Put), Writable on a stream; deferred path/stream; root-module WriteHeader+LdWrite); " +
+			"every output is strictly decoded by the reference codec (payload byte-identical to the reference encoding, version, data offset = 51+padding, index offset = end of payload+padding, requested index codec), all outputs must be byte-identical, " +
+			"and each distinct output is read by the core matrix (lvl>=0: the readers named first in each group) and the base matrix (lvl>=1): BlockReader.Next over {bytes.Reader, plain stream, *os.File, one-byte reads, half reads, data-with-EOF}, SkipNext over {bytes.Reader, plain stream, *os.File, one-byte reads}, SkipNext/Next alternating, " +
+			"Reader.Roots (twice) + DataReader (sequential, and ReadAt + Seek(0) + one-byte reads), root CarReader (strict, lenient, one-byte reads, data-with-EOF; one reader drained and called again, then two opened together and advanced in lockstep), root LoadCar (Put store, PutMany store), " +
+			"internal carv1 reader (stream, one-byte, half reads) and loader (Put store, PutMany store), NewReadOnly over {bytes.Reader, ReaderAt-only, *os.File} and OpenReadOnly (mmap), OpenReadable over {bytes.Reader, ReaderAt-only, *os.File}; " +
+			"checked per reader: roots, (CID, bytes) sequence, SkipNext sizes, BlockReader.Version, two further calls after the end (io.EOF for BlockReader via both methods, no block for the others), key listing, Has/Get/GetSize of every stored block. " +
+			"Cases with lvl=2 add the extended matrix (pipe sources, remaining source x family combinations incl. loaders over short reads, NewReader over ReaderAt-only, OpenReader) and a re-read under ZeroLengthSectionAsEOF+WithTrustedCAR. " +
+			"The legacy readers get the payload window computed by the reference codec, not by go-car. Root HeaderSize/LdSize are compared with the bytes written. " +
 			"non-trivial = >=2 stored blocks or de-duplication fired",
 		Bound: func(tier string) map[string]any {
-			if tier == "thorough" {
-				return map[string]any{"seq_len": 3, "alphabet": 12, "root_sets": len(kit.RootSetOrder), "containers": 5, "dedup_configs": 6}
+			b := map[string]any{
+				"containers":                len(c01Conts),
+				"dedup_configs":             len(c01DDs),
+				"root_sets":                 len(kit.RootSetOrder) + len(kit.C01RootSetsSmall),
+				"root_sets_full_product":    2,
+				"reduced_matrix_other_root": len(c01Reduced),
+				"large_root_sets":           "r3,r24,r100,r400 (header body 140 / 1002 / 4118 / 16419 bytes) x 4 sequences x all containers x {no option, whole+dup+identity}",
+				"extra_cid_shapes":          "j (codec 0x0129), I200 (identity, 200-byte digest): all sequences of length <= 2 containing one of them; root a x full product, roots j, i, empty x reduced matrix",
+				"big_archive":               "1101 blocks x {CARv1, CARv2, padded CARv2 + digest-only index + duplicates}",
+				"writers":                   5 + 3 + len(drv.WriterKindsX),
+				"readers_core":              len(c01Core.scan) + len(c01Core.payload) + len(c01Core.ra),
+				"readers_base":              len(c01Base.scan) + len(c01Base.payload) + len(c01Base.ra),
+				"readers_extended":          len(c01Ext.scan) + len(c01Ext.payload) + len(c01Ext.ra),
+				"readers_reader_options":    len(c01ReaderOpts.scan) + len(c01ReaderOpts.payload) + len(c01ReaderOpts.ra),
 			}
-			return map[string]any{"seq_len": 2, "alphabet": 10, "root_sets": len(kit.RootSetOrder), "containers": 5, "dedup_configs": 6}
+			if tier == "thorough" {
+				b["seq_len"], b["alphabet"] = 3, 12
+				b["section_lengths"] = "127,128,16383,16384,2097151,2097152"
+				b["levels"] = "lvl 2 (core+base+extended+reader options): every case with a sequence of length <= 2 or a boundary-size block, large root sets, extra CID shapes, big archive; sequences of length 3: lvl 1 (core+base) under root set a, lvl 0 (core) under the other root sets (the four additional single-root sets meet them under the three new (container, de-dup) combinations only)"
+			} else {
+				b["seq_len"], b["alphabet"] = 2, 10
+				b["section_lengths"] = "127,128,16383,16384"
+				b["levels"] = "lvl 2 (core+base+extended+reader options): root set a, sequences of length <= 1, boundary-size sequences, large root sets, extra CID shapes with root a, big archive; lvl 1 (core+base) otherwise"
+			}
+			return b
 		},
-		Assumptions: []string{"refcar (reference codec) is correct", "values outside the alphabet are not covered"},
+		Assumptions: []string{
+			"refcar (reference codec) is correct",
+			"values outside the alphabet are not covered",
+			"sections larger than the v2 readers' default limit (8 MiB) are outside the enumerated space: writers accept them, v2 readers refuse them by default and the root readers accept up to 32 MiB",
+			"the reads between puts after the eighth put are limited to the first, the previous and the current block",
+			"io.Reader sources obey the io.Reader contract (short reads and data-with-EOF are enumerated, zero-byte reads without error are not)",
+			"the root-module traversal writer WriteCar is C15's subject; here the root-module writer is WriteHeader + util.LdWrite",
+			"block positions reported by SkipNext (Offset, SourceOffset) are C14's subject; the legacy readers' refusal of an archive without roots is recognised by its message",
+		},
 	})
 }
